@@ -139,6 +139,87 @@ def run_shard(desc):
             part["inconclusive"].append("%s: %s %s" % (what, kind_, detail))
         return True
 
+    if kind == "regrace":
+        # rounds of simultaneous registrations: T threads leave a spin rendezvous together, each registers one new name (every round
+        # uses each registry at least once; names differ in length and grow from round to round), evaluates a program using it right
+        # after register returned, meets the others again and then evaluates the programs of all names of the round.
+        import os
+        miri = os.environ.get("VERIF_TOOL") == "miri"
+        for h in range(n):
+            T = rnd.choice([2, 3, 4, 4, 6, 8]) if not miri else 2
+            R = (rnd.choice([40, 120, 250]) if profile != "tsan" else 40) if not miri else 2
+            kinds4 = ["prefix", "infix", "postfix", "fn"]
+            plans = [[] for _ in range(T)]
+            meta = [[] for _ in range(T)]  # per thread: (step kind, name, kind, expected id)
+            mk = 0
+
+            def reg_of(nm, kd, hid):
+                if kd == "fn":
+                    return {"op": "reg_fn", "name": nm, "beh": {"id": hid, "ret": "tag"}}
+                if kd == "infix":
+                    return {"op": "reg_infix", "name": nm, "prec": 115, "type": "CALC", "assoc": "LEFT", "beh": {"id": hid, "ret": "tag"}}
+                return {"op": "reg_" + kd, "name": nm, "beh": {"id": hid, "ret": "tag"}}
+
+            def prog_of(nm, kd):
+                return {"fn": "%s(1)", "infix": "6 %s 4", "prefix": "%s 4", "postfix": "4 %s"}[kd] % nm
+
+            def want_of(kd, hid):
+                args = {"fn": ["1"], "infix": ["6", "4"], "prefix": ["4"], "postfix": ["4"]}[kd]
+                return {"ok": ["l", [["n", str(hid), 0]] + [["n", a_, 0] for a_ in args]]}
+
+            same_table = h % 3 == 0  # every third history races registrations inside ONE registry
+            for r in range(R):
+                rot = rnd.randrange(4)
+                offs = list(range(T))
+                rnd.shuffle(offs)
+                rnd_names = []
+                for t in range(T):
+                    kd = kinds4[rot] if same_table else kinds4[(t + rot) % 4]
+                    # lengths: round r is longer than every earlier round; within a round the threads differ
+                    nm = "q%s%dt%d" % (kd[0], r, t)
+                    nm += "y" * (12 + r * (T + 1) + offs[t] - len(nm))
+                    rnd_names.append((nm, kd, 20000 + r * 16 + t))
+                for t in range(T):
+                    nm, kd, hid = rnd_names[t]
+                    plans[t].append({"op": "meet", "k": mk, "n": T})
+                    meta[t].append(None)
+                    plans[t].append(reg_of(nm, kd, hid))
+                    meta[t].append(None)
+                    plans[t].append({"op": "exec", "text": prog_of(nm, kd), "nosnap": True})
+                    meta[t].append(("own", nm, kd, hid))
+                    plans[t].append({"op": "meet", "k": mk + 1, "n": T})
+                    meta[t].append(None)
+                    for (nm2, kd2, hid2) in rnd_names:
+                        plans[t].append({"op": "exec", "text": prog_of(nm2, kd2), "nosnap": True})
+                        meta[t].append(("all", nm2, kd2, hid2))
+                mk += 2
+            steps = [{"op": "exec", "text": "1 + 1"}, {"op": "threads", "plans": plans, "jitter_ns": [0] * T}]
+            run = common.run_vexec(steps, wd, "rr-%d-%d" % (si, h), profile, timeout=600)
+            if crashed(run, steps, "simultaneous registrations"):
+                continue
+            C["regrace_processes"] = C.get("regrace_processes", 0) + 1
+            th = run.steps()[1].get("threads", [])
+            orders.add(order_signature(th))
+            for t, recs in enumerate(th):
+                if not isinstance(recs, list):
+                    viol(["thread-panicked", "regrace"], "a thread panicked outside a step", None)
+                    continue
+                for m_, r_ in zip(meta[t], recs):
+                    if m_ is None:
+                        continue
+                    how, nm, kd, hid = m_
+                    part["evaluations"] += 1
+                    C["regrace_reads"] = C.get("regrace_reads", 0) + 1
+                    if r_.get("res") == want_of(kd, hid):
+                        part["classes"].add("regrace:%s:%s:%s" % (kd, how, "one-table" if same_table else "mixed"))
+                    else:
+                        viol(["registration-lost", kd, how, "one-table" if same_table else "mixed-tables"],
+                             "%d threads registered new names at the same moment (%s); `%s`, evaluated %s after its register_%s call had returned, gives %s instead of the registered handler's %s" % (
+                                 T, "all in the %s registry" % kd if same_table else "in different registries", prog_of(nm, kd), "by the registering thread right" if how == "own" else "by thread %d" % t, kd, json.dumps(r_.get("res") or r_.get("perr")), json.dumps(want_of(kd, hid))), None)
+        C["distinct_interleavings"] = len(orders)
+        part["classes"].update("order:" + o for o in list(orders)[:400])
+        part["classes"] = sorted(part["classes"])
+        return part
     if kind == "firstuse":
         for h in range(n):
             T = rnd.choice([2, 4, 8, 16])
@@ -247,7 +328,22 @@ def run_shard(desc):
         for h in range(n):
             nn = 12
             E = rnd.choice([4, 8, 14])
-            names = [("w%d" % i if i % 2 == 0 else "wf%d" % i) for i in range(nn)]
+            # raced names of all four registries; names get longer with i (each is the longest registered so far), and the two
+            # registrars register the names 2j and 2j+1 -- always of two different registries -- at the same logical moment
+            KINDS_ = ["infix", "prefix", "postfix", "infix", "prefix", "fn", "postfix", "prefix", "infix", "postfix", "fn", "infix"]
+            names = ["w%s%d%s" % (KINDS_[i][0], i, "x" * (i if h % 2 else 0)) for i in range(nn)]
+            kind_of = {nm: KINDS_[i] for i, nm in enumerate(names)}
+
+            def reg_step_for(nm, hid):
+                k_ = kind_of[nm]
+                if k_ == "fn":
+                    return {"op": "reg_fn", "name": nm, "beh": {"id": hid, "ret": "tag"}}
+                if k_ == "infix":
+                    return {"op": "reg_infix", "name": nm, "prec": 115, "type": "CALC", "assoc": "LEFT", "beh": {"id": hid, "ret": "tag"}}
+                return {"op": "reg_" + k_, "name": nm, "beh": {"id": hid, "ret": "tag"}}
+
+            def text_for(nm):
+                return {"fn": "%s(1)", "infix": "6 %s 4", "prefix": "%s 4", "postfix": "4 %s"}[kind_of[nm]] % nm
             plans = []
             reg_plan_a, reg_plan_b = [], []
             import os
@@ -261,20 +357,16 @@ def run_shard(desc):
             reg_plan_a, reg_plan_b = [], []
             for i, nm in enumerate(names):
                 tgt = reg_plan_a if i % 2 == 0 else reg_plan_b
-                tgt.append({"op": "wait_tick", "n": i * 4 * E + rnd.randint(E, 3 * E)})
-                if nm.startswith("wf"):
-                    tgt.append({"op": "reg_fn", "name": nm, "beh": {"id": 8000 + i, "ret": "tag"}})
-                else:
-                    tgt.append({"op": "reg_infix", "name": nm, "prec": 115, "type": "CALC", "assoc": "LEFT", "beh": {"id": 8000 + i, "ret": "tag"}})
+                if i % 2 == 0:
+                    pair_tick = i * 4 * E + rnd.randint(E, 3 * E)
+                tgt.append({"op": "wait_tick", "n": pair_tick if h % 2 else i * 4 * E + rnd.randint(E, 3 * E)})
+                tgt.append(reg_step_for(nm, 8000 + i))
             # phase 2: every name is overridden once more (new handler id, same precedence): an evaluation must then see
             # the old or the new handler, never "unregistered"
             for i, nm in enumerate(names):
                 tgt = reg_plan_a if i % 2 == 0 else reg_plan_b
                 tgt.append({"op": "wait_tick", "n": (nn + i) * 4 * E + rnd.randint(E, 3 * E)})
-                if nm.startswith("wf"):
-                    tgt.append({"op": "reg_fn", "name": nm, "beh": {"id": 8100 + i, "ret": "tag"}, "tag": "override"})
-                else:
-                    tgt.append({"op": "reg_infix", "name": nm, "prec": 115, "type": "CALC", "assoc": "LEFT", "beh": {"id": 8100 + i, "ret": "tag"}, "tag": "override"})
+                tgt.append(dict(reg_step_for(nm, 8100 + i), tag="override"))
             plans = [reg_plan_a, reg_plan_b]
             for e in range(E):
                 plan = []
@@ -285,7 +377,7 @@ def run_shard(desc):
                 for phase in (1, 2):
                     for i, nm in enumerate(names):
                         for it in range(4):
-                            plan.append({"op": "hammer", "tick": True, "n": block, "text": ("%s(1)" % nm) if nm.startswith("wf") else ("6 %s 4" % nm), "tag": nm if phase == 1 else "2:" + nm})
+                            plan.append({"op": "hammer", "tick": True, "n": block, "text": text_for(nm), "tag": nm if phase == 1 else "2:" + nm})
                 plans.append(plan)
             # bystanders: threads that evaluate programs naming nothing that is being registered (deeply nested, long, assigning, calling
             # built-ins) on their own fresh contexts; whatever the other threads do, each evaluation must give its sequential result
@@ -351,16 +443,22 @@ def run_shard(desc):
                         continue
                     w0, w1, id1 = writes[nm]
                     o0, o1, id2 = overrides.get(nm, (None, None, None))
-                    is_fn = nm.startswith("wf")
+                    kd = kind_of[nm]
+                    is_fn = kd == "fn"
 
                     def val(i_):
-                        return {"ok": ["l", [["n", str(i_), 0], ["n", "1", 0]]]} if is_fn else {"ok": ["l", [["n", str(i_), 0], ["n", "6", 0], ["n", "4", 0]]]}
+                        args = {"fn": ["1"], "infix": ["6", "4"], "prefix": ["4"], "postfix": ["4"]}[kd]
+                        return {"ok": ["l", [["n", str(i_), 0]] + [["n", a_, 0] for a_ in args]]}
+
+                    # what the program gives while the name is not registered: an unknown function fails; an unknown word is a plain
+                    # name, so `6 w 4` / `w 4` are juxtaposed statements (value 4) and `4 w` ends in the unbound name (None)
+                    unreg = {"infix": {"ok": ["n", "4", 0]}, "prefix": {"ok": ["n", "4", 0]}, "postfix": {"ok": ["z"]}}.get(kd)
 
                     for sg in r.get("segs", []):
                         res = sg["res"]
                         part["evaluations"] += sg["count"]
                         C["raced_reads"] = C.get("raced_reads", 0) + sg["count"]
-                        if (isinstance(res, dict) and "err" in res and "NotRegistered" in res["err"] and is_fn) or (res == {"ok": ["n", "4", 0]} and not is_fn):
+                        if (isinstance(res, dict) and "err" in res and "NotRegistered" in res["err"] and is_fn) or (not is_fn and res == unreg):
                             stage = 0
                         elif res == val(id1):
                             stage = 1
@@ -381,7 +479,7 @@ def run_shard(desc):
                         elif stage == 2 and sg["last_t1"] < o0:
                             viol(["future-read", "override"], "an evaluation of `%s` that returned before the re-registration was called already used the new handler" % nm, None)
                         else:
-                            part["classes"].add("stress:%s:stage%d" % ("fn" if is_fn else "infix", stage))
+                            part["classes"].add("stress:%s:stage%d" % (kd, stage))
                         stage_seen[nm] = max(prev_stage, stage)
                     if len(r.get("segs", [])) >= 2:
                         C["reads_overlapping_a_registration"] = C.get("reads_overlapping_a_registration", 0) + 1
@@ -411,6 +509,8 @@ def run(rep, tier):
     ns = 48 if q else 1600
     for i in range(16):
         shards.append(("stress", i, ns // 16, "release" if i % 2 else "verifdbg"))
+    for i in range(16):
+        shards.append(("regrace", i, 3 if q else 60, "release" if i % 2 else "verifdbg"))
     for part in common.pmap(run_shard, shards):
         rep.merge(part)
     rep.extra["interleavings_seen"] = len([c for c in rep.classes if c.startswith("order:")])
@@ -421,8 +521,8 @@ def run(rep, tier):
 
 def san_shards(tier):
     """data races / UB / deadlock: TSan on the native race workloads, Miri on miniatures (each process another schedule)"""
-    return [("tsan", [("firstuse", 200 + i, 12, "tsan") for i in range(16)] + [("forced", i, 16, "tsan") for i in range(16)] + [("stress", 200 + i, 2, "tsan") for i in range(16)]),
-            ("miri", [("firstuse", 300 + i, 2, "miri") for i in range(16)] + [("forced", i, 64, "miri") for i in range(32)] + [("stress", 300 + i, 1, "miri") for i in range(8)])]
+    return [("tsan", [("firstuse", 200 + i, 12, "tsan") for i in range(16)] + [("forced", i, 16, "tsan") for i in range(16)] + [("stress", 200 + i, 2, "tsan") for i in range(16)] + [("regrace", 200 + i, 2, "tsan") for i in range(16)]),
+            ("miri", [("firstuse", 300 + i, 2, "miri") for i in range(16)] + [("forced", i, 64, "miri") for i in range(32)] + [("stress", 300 + i, 1, "miri") for i in range(8)] + [("regrace", 300 + i, 1, "miri") for i in range(8)])]
 
 
 def replay(path):
